@@ -2610,3 +2610,34 @@ Proof.
     + destruct (E q) as [E'|E']; rewrite E' in A; [|discriminate].
       destruct (IH _ _ A) as [j H]. eauto.
 Qed.
+
+(** while a Delete is inside the tree nobody else changes the stored content
+    (programs without Leaf.Update through a handle): Delete's removals are the
+    only abstract changes between its first and its last critical section *)
+Theorem delete_excludes_writers ops s d td j s' tj :
+  forallb no_hupd_op ops = true -> reach ops s ->
+  nth_error (thr s) d = Some td -> in_delete (tpc td) = true ->
+  d <> j -> nth_error (thr s) j = Some tj -> step s j = Some s' ->
+  forall q, absf (hp s') q = absf (hp s) q.
+Proof.
+  intros Q R Ed D NE Ej ST.
+  assert (QP : forallb patched_op ops = true).
+  { rewrite forallb_forall in *. intros o Ho. specialize (Q o Ho). destruct o; auto; discriminate. }
+  destruct (delete_atomic_patched ops s d j td tj R NE Ed Ej D) as [NH NR].
+  destruct (reach_Inv _ _ R) as [HO [TO _]].
+  pose proof (Forall_nth_error _ _ _ _ TO Ej) as [_ [_ Pj]].
+  destruct (step_abs_effect s j s' tj (reach_TInv _ _ QP R) (reach_val_ok _ _ R) ST Ej)
+    as [W E|p0 v0 W Tp E|n v0 Pc _|Dj E].
+  - exact E.
+  - (* an Add at its write step is inside a critical section: it holds a lock *)
+    exfalso. unfold is_write in W. rewrite Tp in W.
+    destruct (tpc tj) eqn:Pc; try discriminate; cbn in Pj; destruct Pj as [[r0 Hr] _];
+      rewrite NH in Hr by reflexivity; discriminate.
+  - exfalso. destruct (Forall_nth_error _ _ _ _ (reach_fam_ok _ _ R) Ej) as [F _].
+    rewrite Pc in F. cbn in F.
+    pose proof (nth_error_top _ _ _ _ R Ej) as O. rewrite forallb_forall in Q.
+    specialize (Q _ (nth_error_In _ _ O)). destruct (top tj); try discriminate.
+  - (* a second Delete inside the tree would hold the root too *)
+    exfalso. eapply (NR MW). eapply in_delete_holds_root; eauto.
+    eapply Forall_nth_error; eauto.
+Qed.
